@@ -1278,6 +1278,13 @@ def sequence_specs(rng: random.Random, reps: int) -> list[dict]:
             # (g) a good call after a failing one
             specs.append({"seq": "after_failure", "label": kind, "objs": [a, seq_recipe(rng, kind, 2, *la), seq_recipe(rng, kind, 2, *lb)],
                           "bad_file": rng.choice(["unknown_class", "no_attribute", "other_kind", "not_hdf5"])})
+        # (i) write (or only query .data / get_linked_data), change the SAME in-memory object in place WITHOUT changing
+        # its length, write again to the same and to another path: the files must hold the current values
+        for kind in KINDS:
+            for k_how, how in enumerate(EDITS):
+                touch = TOUCHES[(k_how + KINDS.index(kind) + _) % len(TOUCHES)]
+                specs.append({"seq": "write_edit_write", "label": f"{kind}: {touch}, then {how}",
+                              "objs": [seq_recipe(rng, kind, 3)], "touch": touch, "how": how})
         # (h) several collections through one open h5py group, look-alike classes alternately, own keys
         for grp in ("/", "g", "a/b"):
             la, lb = rng.choice(LOOKALIKES)
@@ -1335,6 +1342,80 @@ def grow_everywhere(obj, kind: str) -> None:
         for tr in obj:
             tr.append(extra(tr.dim), 99.5)
         obj.append(DropletTrack([extra(1)], [99.5]))
+
+
+EDITS = ["radius", "position", "amplitudes_or_width", "times_replaced", "times_item", "member_replaced"]
+TOUCHES = ["to_file", "data", "linked_data", "to_file+data"]
+
+
+def touch_data(obj, kind: str, how: str, path: Path) -> None:
+    """what happens to the object before it is edited: written once, and / or its array views queried"""
+    containers = [obj] if kind in ("emulsion", "track") else list(obj.emulsions) if kind == "etc" else list(obj)
+    if "to_file" in how:
+        obj.to_file(str(path))
+    if "data" in how:
+        for c in containers:
+            try:
+                if how == "linked_data" and hasattr(c, "get_linked_data"):
+                    c.get_linked_data()
+                else:
+                    c.data
+            except Exception:  # noqa   (empty emulsion without dtype)
+                pass
+
+
+def edit_in_place(obj, kind: str, how: str) -> None:
+    """change values of a collection through its public attributes, keeping every length"""
+    from droplets.emulsions import Emulsion
+    from droplets.droplet_tracks import DropletTrack
+    groups = droplets_of(obj, kind)
+    holders = [obj] if kind in ("track", "etc") else list(obj) if kind == "tracklist" else []
+    if how in ("times_replaced", "times_item") and not any(h.times for h in holders):
+        how = "radius"                                   # emulsions have no times
+    if how == "radius":
+        for g in groups:
+            for i, d in enumerate(g):
+                if i % 2 == 1 or len(g) == 1:
+                    d.radius = 7.0 + i
+    elif how == "position":
+        for g in groups:
+            for i, d in enumerate(g[-1:]):
+                pos = np.array(d.position, dtype=float)
+                pos[-1] = -11.5                           # the last axis is free also for axisymmetric droplets
+                d.position = pos
+    elif how == "amplitudes_or_width":
+        for g in groups:
+            for d in g[:2]:
+                if hasattr(d, "amplitudes") and len(d.amplitudes):
+                    d.amplitudes = np.linspace(0.015625, 0.03125, len(d.amplitudes))
+                elif hasattr(d, "interface_width"):
+                    d.interface_width = 0.375
+                else:
+                    d.radius = 3.5
+    elif how == "times_replaced":
+        for h in holders:
+            h.times = [0.5 * j - 1.0 for j in range(len(h.times))]      # a new list of the same length, 0 included
+    elif how == "times_item":
+        for h in holders:
+            if h.times:
+                h.times[-1] = 123.25
+    else:   # member_replaced: another object of the same class and length at an existing position
+        def other(d):
+            c = d.copy()
+            c.radius = 19.0
+            return c
+        if kind == "emulsion":
+            if len(obj):
+                obj[-1] = other(obj[-1])
+        elif kind == "track":
+            if obj.droplets:
+                obj.droplets[0] = other(obj.droplets[0])
+        elif kind == "etc":
+            for j, e in enumerate(obj.emulsions):
+                obj.emulsions[j] = Emulsion([other(d) for d in e])
+        else:
+            for j, tr in enumerate(obj):
+                obj[j] = DropletTrack([other(d) for d in tr.droplets], list(tr.times))
 
 
 def mutate_obj(obj, kind: str, how: str, spec: dict) -> None:
@@ -1476,6 +1557,15 @@ def run_sequence(spec: dict, workdir: Path) -> dict:
                 out["notes"].append(f"writing the mutated object raises {type(e).__name__}")
             else:
                 judge(r, p1, f"mutated ({spec['how']}) object written to the path it was read from", kind, dr)
+    elif seq == "write_edit_write":
+        kind = kinds[0]
+        touch_data(objs[0], kind, spec["touch"], p1)
+        edit_in_place(objs[0], kind, spec["how"])
+        dumps[0] = _safe(dump_obj, objs[0], kind)
+        objs[0].to_file(str(p1))
+        judge(0, p1, f"same path, after {spec['touch']} and an in-place change ({spec['how']})")
+        objs[0].to_file(str(p2))
+        judge(0, p2, f"another path, after {spec['touch']} and an in-place change ({spec['how']})")
     elif seq == "write_while_alive":
         kind = kinds[0]
         objs[0].to_file(str(p1))
@@ -1991,6 +2081,8 @@ def check(ctx: vlib.Ctx) -> int:
                 ctx.count("seq_write_over_length", "second " + rel)
             elif spec["seq"] == "read_mutate_write":
                 ctx.count("seq_read_mutate_write", spec["label"])
+            elif spec["seq"] == "write_edit_write":
+                ctx.count("seq_write_edit_write", spec["label"])
             elif spec["seq"] == "after_failure":
                 for nt in sres["notes"]:
                     ctx.count("seq_after_failure", f"{spec['label']}: {nt}")
